@@ -557,7 +557,7 @@ def st_xproc(ctx: Ctx):
 
 
 PARTS = [
-    Part("pairs", check_pairs, strategy=st_pairs, quick=2400, thorough=120000),
-    Part("xproc", check_xproc, strategy=st_xproc, quick=480, thorough=16000),
+    Part("pairs", check_pairs, strategy=st_pairs, quick=4800, thorough=300000),
+    Part("xproc", check_xproc, strategy=st_xproc, quick=800, thorough=32000),
     Part("explicit_pair", check_explicit_pair),
 ]
